@@ -279,6 +279,8 @@ def b_zip(I, args, kw):
             raise Unsupported('zip(*seq): elements are not tuples')
         return [SymSeq(seq.length, (lambda c: (lambda k: seq.at(k)[c]))(c), name='%s.%d' % (seq.name, c))
                 for c in range(len(probe))]
+    # abstract containers with a sequence view (world.as_symseq) take part as sequences of symbolic length
+    args = [I.world.as_symseq(I, a) or a if isinstance(a, Obj) else a for a in args]
     if any(isinstance(a, SymSeq) for a in args):
         if not all(isinstance(a, SymSeq) for a in args):
             raise Unsupported('zip of symbolic and concrete sequences')
@@ -293,6 +295,9 @@ def b_zip(I, args, kw):
 
 def b_enumerate(I, args, kw):
     start = args[1] if len(args) > 1 else kw.get('start', 0)
+    sv = args[0] if isinstance(args[0], SymSeq) else (I.world.as_symseq(I, args[0]) if isinstance(args[0], Obj) else None)
+    if sv is not None:
+        return SymSeq(sv.length, lambda k: (k + start, sv.at(k)), name='enumerate(%s)' % sv.name)
     return [(i + start, x) for i, x in enumerate(I.iterate(args[0]))]
 
 
